@@ -101,6 +101,11 @@ type worldReq struct {
 	Rev   int  `json:"rev,omitempty"`
 	Pick  int  `json:"pick,omitempty"`  // index into the kept revisions other than current, modulo their number
 	ByRev bool `json:"byrev,omitempty"` // pass the revision explicitly (snap refresh --revision=N)
+	// remove-rev only: PickAny lets Pick range over all kept revisions including the
+	// current one; PickCurrent addresses the current revision itself (snapstate accepts
+	// that for a disabled snap and has to choose a new current)
+	PickAny     bool `json:"pickany,omitempty"`
+	PickCurrent bool `json:"pickcurrent,omitempty"`
 
 	Channel          string `json:"channel,omitempty"`
 	Cohort           string `json:"cohort,omitempty"`
@@ -654,6 +659,19 @@ func (w *world) resolve(r worldReq) (worldReq, bool) {
 		}
 		return r, false
 	case "remove-rev":
+		if present && r.PickCurrent {
+			r.Rev = snapst.Current.N
+			return r, true
+		}
+		if present && r.PickAny {
+			seq := worldSeq(snapst)
+			p := r.Pick
+			if p < 0 {
+				p = -p
+			}
+			r.Rev = seq[p%len(seq)]
+			return r, true
+		}
 		if !present || len(others) == 0 {
 			return r, false
 		}
